@@ -94,7 +94,10 @@ Definition cmd_nf5 (args : list tok) : bytes :=
 Definition test_ext_elements : model :=
   [((9, 1), (1, "extString", 14)); ((9, 2), (2, "extU32", 3)); ((9, 3), (3, "extBool", 11));
    ((9, 4), (4, "extOctets", 13)); ((29305, 0), (0, "extZero", 2)); ((29305, 7), (7, "extF64", 10));
-   ((4294967295, 32767), (32767, "extMax", 20))]%string.
+   ((4294967295, 32767), (32767, "extMax", 20));
+   ((9, 5), (5, "extI8", 5)); ((9, 6), (6, "extI16", 6)); ((9, 7), (7, "extI32", 7)); ((9, 8), (8, "extI64", 8)); ((9, 9), (9, "extF32", 9));
+   ((0, 30001), (30001, "ext0I8", 5)); ((0, 30002), (30002, "ext0I16", 6)); ((0, 30003), (30003, "ext0I32", 7));
+   ((0, 30004), (30004, "ext0I64", 8)); ((0, 30005), (30005, "ext0F32", 9))]%string.
 
 Definition driver_model : model :=
   builtin_model Gen.InfoModel.type_consts Gen.InfoModel.field_types Gen.InfoModel.builtin ++ test_ext_elements.
